@@ -33,7 +33,10 @@ type MultiInput struct {
 	StartSeq   uint16   `json:"start_seq"`
 	N          int      `json:"n"`
 	PayloadMax int      `json:"payload_max"`
-	Seed       uint64   `json:"seed"`
+	// application goroutines calling ServerStream.WritePacketRTCP at the same time (they share the
+	// stream's outgoing context with each other, with the RTP writer and with the periodic sender reports)
+	RTCPWriters int    `json:"rtcp_writers,omitempty"`
+	Seed        uint64 `json:"seed"`
 }
 
 type multiReader struct {
@@ -234,6 +237,31 @@ func runMultiCase(c *corr.Ctx, in *MultiInput, name string) {
 	time.Sleep(20 * time.Millisecond)
 	total := 0
 	sdesSent := map[string]bool{}
+	var sdesMu sync.Mutex
+	var wwg sync.WaitGroup
+	var wErr error
+	for g := 0; g < in.RTCPWriters; g++ {
+		wwg.Add(1)
+		go func(g int) {
+			defer wwg.Done()
+			for k := 0; k < 120; k++ {
+				txt := fmt.Sprintf("%s/rtcp/w%d/#%d", marker, g, k)
+				sdesMu.Lock()
+				sdesSent[txt] = true
+				sdesMu.Unlock()
+				if e := st.WritePacketRTCP(desc.Medias[0], &rtcp.SourceDescription{Chunks: []rtcp.SourceDescriptionChunk{{
+					Source: 0x01020304, Items: []rtcp.SourceDescriptionItem{{Type: rtcp.SDESCNAME, Text: txt}}}}}); e != nil {
+					sdesMu.Lock()
+					wErr = e
+					sdesMu.Unlock()
+					return
+				}
+				if k%4 == 3 {
+					time.Sleep(time.Millisecond)
+				}
+			}
+		}(g)
+	}
 	for i := 0; i < in.N; i++ {
 		for f := 0; f < in.Formats; f++ {
 			pt := uint8(96 + f)
@@ -250,15 +278,21 @@ func runMultiCase(c *corr.Ctx, in *MultiInput, name string) {
 			}
 			if total%10 == 0 {
 				// RTCP written through the stream (ServerStream.WritePacketRTCP fans out like RTP)
+				sdesMu.Lock()
 				txt := fmt.Sprintf("%s/rtcp/#%d", marker, len(sdesSent))
+				sdesSent[txt] = true
+				sdesMu.Unlock()
 				if err = st.WritePacketRTCP(desc.Medias[0], &rtcp.SourceDescription{Chunks: []rtcp.SourceDescriptionChunk{{
 					Source: 0x01020304, Items: []rtcp.SourceDescriptionItem{{Type: rtcp.SDESCNAME, Text: txt}}}}}); err != nil {
 					multiViol(c, "the stream carries RTCP to a mixed reader population", "sec-multi-write-rtcp", in, err.Error())
 					return
 				}
-				sdesSent[txt] = true
 			}
 		}
+	}
+	wwg.Wait()
+	if wErr != nil {
+		multiViol(c, "the stream carries RTCP written by several goroutines", "sec-multi-write-rtcp", in, wErr.Error())
 	}
 	waitFor(2*time.Second, func() bool { return seenMin() >= total })
 	time.Sleep(350 * time.Millisecond) // sender reports
@@ -421,6 +455,12 @@ func runMulti(c *corr.Ctx) {
 	mixes := [][]string{
 		{"avp-tcp", "savp-udp"}, {"savp-tcp", "avp-tcp"}, {"savp-udp", "avp-tcp", "savp-tcp"},
 		{"avp-tcp", "savp-udp", "avp-tcp", "savp-udp"}, {"savp-udp", "savp-tcp"}, {"avp-tcp", "avp-tcp"},
+	}
+	// >= 3 RTP/SAVP readers (UDP and TCP) of one stream while the application writes RTCP from several goroutines
+	for k := 0; k < c.N(1, 4); k++ {
+		in := &MultiInput{Readers: []string{"savp-tcp", "savp-udp", "savp-tcp", "savp-udp"}[:3+r.IntN(2)], Formats: 1 + r.IntN(2), N: 150,
+			PayloadMax: 100, RTCPWriters: 3 + r.IntN(3), StartSeq: uint16(r.IntN(65536)), Seed: r.Uint64()}
+		runMultiCase(c, in, fmt.Sprintf("multi-rtcp-writers-%d", k))
 	}
 	n := c.N(4, 24)
 	for i := 0; i < n; i++ {
